@@ -182,6 +182,40 @@ func loadProgram(opts *Options) (*ssa.Program, []*packages.Package, error) {
 	return prog, pkgs, nil
 }
 
+var globalStubs = map[string]Value{}
+
+// lookupQualified finds "import/path.Func".
+func lookupQualified(prog *ssa.Program, q string) *ssa.Function {
+	i := strings.LastIndex(q, ".")
+	if i < 0 {
+		return nil
+	}
+	p := prog.ImportedPackage(q[:i])
+	if p == nil {
+		return nil
+	}
+	return p.Func(q[i+1:])
+}
+
+func loadGlobalStubs(prog *ssa.Program, harnessDir string) {
+	data, err := os.ReadFile(filepath.Join(harnessDir, "stubs.txt"))
+	if err != nil {
+		return
+	}
+	for _, line := range strings.Split(string(data), "\n") {
+		f := strings.Fields(line)
+		if len(f) != 2 || strings.HasPrefix(f[0], "#") {
+			continue
+		}
+		fn := lookupQualified(prog, f[1])
+		if fn == nil {
+			fmt.Fprintln(os.Stderr, "stubs.txt: replacement not found:", f[1])
+			os.Exit(3)
+		}
+		globalStubs[f[0]] = fn
+	}
+}
+
 func findHarnesses(prog *ssa.Program, pkgs []*packages.Package, prop string, tier int) []*Harness {
 	var out []*Harness
 	prefix := "Verif" + prop + "_"
@@ -201,6 +235,9 @@ func findHarnesses(prog *ssa.Program, pkgs []*packages.Package, prop string, tie
 				continue
 			}
 			h := &Harness{Name: name, Pkg: p.PkgPath, Fn: fn, Stubs: map[string]Value{}, Unwind: 64, MaxSteps: 3_000_000, MaxPaths: 20000, Preempt: 0, Timers: 0}
+			for k, v := range globalStubs {
+				h.Stubs[k] = v
+			}
 			if fd, ok := fn.Syntax().(*ast.FuncDecl); ok && fd.Doc != nil {
 				var doc []string
 				for _, c := range fd.Doc.List {
@@ -254,6 +291,9 @@ func findHarnesses(prog *ssa.Program, pkgs []*packages.Package, prop string, tie
 					case "stub":
 						if len(f) == 3 {
 							stubFn := sp.Func(f[2])
+							if stubFn == nil {
+								stubFn = lookupQualified(prog, f[2])
+							}
 							if stubFn == nil {
 								fmt.Fprintf(os.Stderr, "harness %s: stub function %s not found\n", name, f[2])
 								os.Exit(3)
